@@ -41,10 +41,34 @@ pub fn pick_alphabet(rng: &mut Rng, var: Var) -> Alpha {
         }
         Var::C => {
             let pat = rng.pick(CHAR_POOLS).to_vec();
-            let extra = CHAR_EXTRA.iter().copied().filter(|x| !pat.contains(x)).collect();
+            let mut extra: Vec<u32> = alias_extras(&pat);
+            extra.extend(CHAR_EXTRA.iter().copied().filter(|x| !pat.contains(x)));
             Alpha { pat, extra }
         }
     }
+}
+
+/// Characters that occur in no pattern but are congruent to a pattern character modulo the size
+/// of a power-of-two table covering the pattern characters, and the characters around that size:
+/// an index computed by masking or wrapping instead of a bounds check would alias them.
+pub fn alias_extras(pat: &[u32]) -> Vec<u32> {
+    let max = pat.iter().copied().max().unwrap_or(0);
+    let t = (max + 1).next_power_of_two();
+    let mut out = vec![];
+    for &p in pat.iter().take(4) {
+        for k in 1..=2u32 {
+            let h = p + k * t;
+            if char::from_u32(h).is_some() && !pat.contains(&h) && !out.contains(&h) {
+                out.push(h);
+            }
+        }
+    }
+    for h in [max + 1, t.saturating_sub(1), t, t + 1] {
+        if char::from_u32(h).is_some() && !pat.contains(&h) && !out.contains(&h) {
+            out.push(h);
+        }
+    }
+    out
 }
 
 /// larger alphabets for dictionaries spanning many blocks
@@ -75,7 +99,8 @@ pub fn dict_alphabet(rng: &mut Rng, var: Var) -> Alpha {
                     pat.push(c);
                 }
             }
-            let extra = CHAR_EXTRA.iter().copied().filter(|x| !pat.contains(x)).collect();
+            let mut extra: Vec<u32> = alias_extras(&pat);
+            extra.extend(CHAR_EXTRA.iter().copied().filter(|x| !pat.contains(x)));
             Alpha { pat, extra }
         }
     }
@@ -144,7 +169,7 @@ pub fn gen_haystack(rng: &mut Rng, var: Var, alpha: &Alpha, maxlen: usize, pats:
                 push_label(var, &mut out, l);
             }
             k += p.len().max(1);
-        } else if r == 9 && !alpha.extra.is_empty() {
+        } else if r >= 8 && !alpha.extra.is_empty() {
             push_label(var, &mut out, *rng.pick(&alpha.extra));
             k += 1;
         } else {
